@@ -36,8 +36,8 @@ func main() {
 		replayMain(os.Args[2:])
 	case "selftest-determinism":
 		selftestDeterminism(os.Args[2:])
-	case "clistub":
-		cliStubMain(os.Args[2:])
+	case "instrument":
+		instrumentMain(os.Args[2:])
 	default:
 		die(2, "unknown subcommand %q", os.Args[1])
 	}
